@@ -492,7 +492,7 @@ var mutKinds = []string{
 	"time/=parent", "time/<parent", "time/=0", "time/far-future",
 	"gas-limit/up-to-bound", "gas-limit/down-to-bound", "gas-limit/up-far", "gas-limit/down-far", "gas-limit/above-2^63-1", "gas-limit/below-5000",
 	"gas-used/=limit+1", "gas-used/=max",
-	"base-fee/+1", "base-fee/-1", "base-fee/empty", "base-fee/parent's", "base-fee/random",
+	"base-fee/+1", "base-fee/-1", "base-fee/empty", "base-fee/parent's", "base-fee/random", "base-fee/+2^64", "base-fee/+2^128", "base-fee/+2^63", "base-fee/+2^32",
 	// still valid (boundaries, fields no rule constrains on Rinkeby)
 	"valid/gas-limit-up-max-allowed", "valid/gas-limit-down-max-allowed", "valid/time=parent+1", "valid/extra-97-bytes", "valid/other-fields",
 	// not pinned by the statement
@@ -587,6 +587,10 @@ func mutate(rng *rand.Rand, kind string, h ethtypes.Header, p *node, bt uint64) 
 			return m, false
 		}
 		m.BaseFee = append([]byte{}, p.hdr.BaseFee...)
+	case "base-fee/+2^64", "base-fee/+2^128", "base-fee/+2^63", "base-fee/+2^32":
+		// the right value in the low bits, wrong above them (a comparison of truncated integers does not see it)
+		sh := map[string]uint{"base-fee/+2^64": 64, "base-fee/+2^128": 128, "base-fee/+2^63": 63, "base-fee/+2^32": 32}[kind]
+		m.BaseFee = new(big.Int).Add(new(big.Int).SetBytes(h.BaseFee), new(big.Int).Lsh(big.NewInt(int64(1+rng.Intn(3))), sh)).Bytes()
 	case "base-fee/random":
 		m.BaseFee = append([]byte{1 + byte(rng.Intn(255))}, rbytes(rng, rng.Intn(12))...)
 		if new(big.Int).SetBytes(m.BaseFee).Cmp(new(big.Int).SetBytes(h.BaseFee)) == 0 {
